@@ -112,20 +112,17 @@ func isSuccessReturn(in ssa.Instruction) bool {
 // innermostLoopHeader returns the header of the innermost natural loop containing b.
 func innermostLoopHeader(b *ssa.BasicBlock) *ssa.BasicBlock {
 	var best *ssa.BasicBlock
+	bestSize := 0
 	for _, h := range b.Parent().Blocks {
-		ls := latches(h)
-		if len(ls) == 0 || !(h == b || h.Dominates(b)) {
+		if len(latches(h)) == 0 {
 			continue
 		}
-		reach := reachableBlocks([]*ssa.BasicBlock{b})
-		inside := false
-		for _, l := range ls {
-			if l == b || reach[l] {
-				inside = true
-			}
+		body := naturalLoop(h)
+		if !body[b] {
+			continue
 		}
-		if inside && (best == nil || best.Dominates(h)) {
-			best = h
+		if best == nil || len(body) < bestSize {
+			best, bestSize = h, len(body)
 		}
 	}
 	return best
@@ -1464,6 +1461,28 @@ func checkCandidatePositionsUsed(p *Program, r *Report, rule string, a *verifyAn
 			// with an equality on a value that flows from those positions
 			C, _ := candidatesIn(p, fn, a.core)
 			tests := matchTests(fn, C)
+			site := fn
+			if C != nil && len(tests) == 0 {
+				if hc, h, hC := matchHelper(p, fn, C); hc != nil {
+					// the matching loop lives in a helper: positions reach it through its parameters
+					site, tests = h, matchTests(h, hC)
+					outer := fromPositions
+					fromPositions = func(v ssa.Value) bool {
+						return flowsFrom(v, func(x ssa.Value) bool {
+							par, ok := x.(*ssa.Parameter)
+							if !ok {
+								return false
+							}
+							for i, q := range h.Params {
+								if q == par && i < len(hc.Common().Args) && outer(hc.Common().Args[i]) {
+									return true
+								}
+							}
+							return false
+						}, 0, map[ssa.Value]bool{})
+					}
+				}
+			}
 			if C == nil || len(tests) == 0 {
 				r.Undecided(rule, key, posOf(p, sc.call), "cannot find the comparison of candidates with the stored roots")
 				continue
@@ -1471,7 +1490,7 @@ func checkCandidatePositionsUsed(p *Program, r *Report, rule string, a *verifyAn
 			allJoined := true
 			for _, t := range tests {
 				joined := false
-				for _, b := range fn.Blocks {
+				for _, b := range site.Blocks {
 					hasT, hasP := false, false
 					for _, g := range guardsAt(b) {
 						if g.Cond == ssa.Value(t) && g.Truth == (t.Op == token.EQL) {
@@ -1931,21 +1950,55 @@ func checkRecordAppliesDeletions(p *Program, r *Report, rule string) {
 			applies = append(applies, sc.call)
 		}
 	}
-	n := 0
+	// stores into the history: in the function itself, or in a method of the same receiver it calls
+	// (a first-block branch extracted into a helper); the event is then the call.
+	historyStore := func(g *ssa.Function, in ssa.Instruction) (*ssa.FieldAddr, bool) {
+		st, ok := in.(*ssa.Store)
+		if !ok {
+			return nil, false
+		}
+		fa, ok := st.Addr.(*ssa.FieldAddr)
+		if !ok || !isReceiverValue(g, fa.X) {
+			return nil, false
+		}
+		ft, ok := deref(fa.Type()).Underlying().(*types.Slice)
+		if !ok || !isRootInfoSlice(ft.Elem()) {
+			return nil, false
+		}
+		return fa, true
+	}
+	type event struct {
+		in ssa.Instruction
+		fa *ssa.FieldAddr
+	}
+	var events []event
 	for _, b := range fn.Blocks {
 		for _, in := range b.Instrs {
-			st, ok := in.(*ssa.Store)
-			if !ok {
+			if fa, ok := historyStore(fn, in); ok {
+				events = append(events, event{in, fa})
 				continue
 			}
-			fa, ok := st.Addr.(*ssa.FieldAddr)
-			if !ok || !isReceiverValue(fn, fa.X) {
-				continue
+			if c, ok := in.(*ssa.Call); ok {
+				callee := c.Common().StaticCallee()
+				if callee == nil || !p.owns(callee) || callee.Signature.Recv() == nil || callee.Blocks == nil {
+					continue
+				}
+				for _, hb := range callee.Blocks {
+					for _, hin := range hb.Instrs {
+						if fa, ok := historyStore(callee, hin); ok {
+							events = append(events, event{in, fa})
+						}
+					}
+				}
 			}
-			ft, ok := deref(fa.Type()).Underlying().(*types.Slice)
-			if !ok || !isRootInfoSlice(ft.Elem()) {
-				continue
-			}
+		}
+	}
+	n := 0
+	for _, ev := range events {
+		{
+			in, fa := ev.in, ev.fa
+			b := in.Block()
+			st := in
 			n++
 			key := fmt.Sprintf("AddBlockSummary/root-history-store#%d", n)
 			// first-block path: guarded by len(history) == 0
@@ -2048,6 +2101,25 @@ func checkGrowPerLeaf(p *Program, r *Report, rule string) {
 	}
 	hdr, _ := rangeLoopOver(addFn, leafParam)
 	if hdr == nil {
+		// an index loop: a header that tests a counter against len(leaves)
+		for _, b := range addFn.Blocks {
+			if len(latches(b)) == 0 || len(b.Instrs) == 0 {
+				continue
+			}
+			iff, ok := b.Instrs[len(b.Instrs)-1].(*ssa.If)
+			if !ok {
+				continue
+			}
+			if bo, ok := iff.Cond.(*ssa.BinOp); ok {
+				for _, side := range []ssa.Value{bo.X, bo.Y} {
+					if s, isLen := lenArg(side); isLen && s == leafParam {
+						hdr = b
+					}
+				}
+			}
+		}
+	}
+	if hdr == nil {
 		r.Undecided(rule, key, p.Pos(addFn.Pos()), "cannot find the loop over the added leaves")
 		return
 	}
@@ -2109,7 +2181,9 @@ func checkGrowPerLeaf(p *Program, r *Report, rule string) {
 // cannot exclude the unpopulated tail of a row.
 //
 // existenceTests is the reviewed table of exact tests of the package:
-//   inForest(pos, numLeaves, rows) bool      - walks to the rightmost leaf below pos and compares it with numLeaves
+//
+//	inForest(pos, numLeaves, rows) bool      - walks to the rightmost leaf below pos and compares it with numLeaves
+//
 // (maxPositionAtRow was in this table until a seeding agent's witness showed it inexact for the empty forest:
 // maxPositionAtRow(0, 0, 0) is 0, so position 0 "exists" with no leaves.)
 var existenceTests = map[string]bool{"inForest": true}
